@@ -601,6 +601,7 @@ def to_jpg(
     with_auto_suffix: bool = True,
     run_number: int | None = None,
     header: Mapping | None = None,
+    extension: str = "jpg",
 ) -> Path:
     """Write Numpy array to a JPG image file."""
     if not isinstance(data, np.ndarray):
@@ -618,11 +619,11 @@ def to_jpg(
 
     if with_auto_suffix:
         filename = apply_run_number(
-            template_filename=full_output_folder.joinpath(f"{name}_?.jpg"),
+            template_filename=full_output_folder.joinpath(f"{name}_?.{extension}"),
             run_number=run_number,
         )
     else:
-        filename = full_output_folder / f"{name}.jpg"
+        filename = full_output_folder / f"{name}.{extension}"
 
     full_filename: Path = filename.resolve()
 
@@ -633,6 +634,26 @@ def to_jpg(
     im.save(full_filename)
 
     return full_filename
+
+
+def to_jpeg(
+    current_output_folder: Path,
+    data: Any,
+    name: str,
+    with_auto_suffix: bool = True,
+    run_number: int | None = None,
+    header: Mapping | None = None,
+) -> Path:
+    """Write Numpy array to a JPEG image file (with extension '.jpeg')."""
+    return to_jpg(
+        current_output_folder=current_output_folder,
+        data=data,
+        name=name,
+        with_auto_suffix=with_auto_suffix,
+        run_number=run_number,
+        header=header,
+        extension="jpeg",
+    )
 
 
 def to_netcdf(
@@ -685,7 +706,7 @@ def to_file(
         "csv": to_csv,
         "png": to_png,
         "jpg": to_jpg,
-        "jpeg": to_jpg,
+        "jpeg": to_jpeg,
     }
 
     func: SaveToFileProtocol = save_methods[out_format]
